@@ -49,8 +49,9 @@ static void more_tokens() {
 
 struct CheckerCfg { int key; jwt_alg_t alg; int cb; bool iss; long exp_lee; };
 static const CheckerCfg CCFG[] = {{-1, JWT_ALG_NONE, VCB_NONE, false, 0}, {1, JWT_ALG_NONE, VCB_NONE, false, 0}, {0, JWT_ALG_HS256, VCB_NONE, true, 0}, {4, JWT_ALG_NONE, VCB_NONE, false, -1}, {3, JWT_ALG_ES256, VCB_MUTATE, false, 0},
-                                  {-1, JWT_ALG_NONE, VCB_FAIL, false, 0}, {-1, JWT_ALG_NONE, VCB_SELECT, false, 0}, {1, JWT_ALG_NONE, VCB_FAIL, true, 0}, {5, JWT_ALG_HS256, VCB_NONE, false, 0}, {6, JWT_ALG_NONE, VCB_NONE, false, 0}, {7, JWT_ALG_HS512, VCB_NONE, false, 5}, {2, JWT_ALG_HS256, VCB_NONE, false, 0}};
-static const int NCCFG = 12;
+                                  {-1, JWT_ALG_NONE, VCB_FAIL, false, 0}, {-1, JWT_ALG_NONE, VCB_SELECT, false, 0}, {1, JWT_ALG_NONE, VCB_FAIL, true, 0}, {5, JWT_ALG_HS256, VCB_NONE, false, 0}, {6, JWT_ALG_NONE, VCB_NONE, false, 0}, {7, JWT_ALG_HS512, VCB_NONE, false, 5}, {2, JWT_ALG_HS256, VCB_NONE, false, 0},
+                                  {-1, JWT_ALG_NONE, VCB_ALG_ONLY, false, 0}, {-1, JWT_ALG_NONE, VCB_MISMATCH, false, 0}, {-1, JWT_ALG_NONE, VCB_KEY_NOALG, false, 0}, {1, JWT_ALG_NONE, VCB_MISMATCH, true, 0}, {1, JWT_ALG_NONE, VCB_ALG_ONLY, false, -1}, {-1, JWT_ALG_NONE, VCB_KID, false, 0}};
+static const int NCCFG = 18;
 
 static jwt_checker_t *mk_checker(const CheckerCfg &c, VCtx *cx) {
   jwt_checker_t *ch = jwt_checker_new();
